@@ -59,6 +59,9 @@ def configs(tier, seed):
                     continue
                 c = seq.cfg_with(seed=seed, freq=fs[0], start=fs[1], **lay, **kw)
                 out.append(c)
+    # a present-but-all-zero gradient is a gradient: the parameter is still decayed / given momentum like the reference says
+    for lay in LAYOUTS[:2]:
+        out.append(seq.cfg_with(seed=seed, freq=1, start=2, grad_kind="zero_second", **lay, **bases[3]))
     # two param groups: counters are per group
     for li, lay in enumerate(LAYOUTS):
         for kw in (bases[1], bases[7]):
